@@ -89,23 +89,33 @@ def first_diffs(a, b, path='', out=None, limit=4):
     return out[:limit]
 
 
-def evaluate(sb, triples, tier, chk=None, stats=None):
+class AbortedHistory:
+    """the same sandbox, but every implementation process first goes through one merge aborted by an exception (harness/prelude.py)"""
+    def __init__(self, sb): self.sb = sb; self.dir = sb.dir
+    def env(self, mode='git'): return dict(self.sb.env(mode), NBV_PRELUDE='abort')
+
+
+def evaluate(sb, triples, tier, chk=None, stats=None, strategy_sb=None):
     """returns list of (triple index, kind, scfg, ocfg, signature, detail, n_relabelled); stats (a dict), if given, receives
-    'id_conflicts': {triple index: largest number of conflicted cell-id decisions in one of its open runs}"""
+    'id_conflicts': {triple index: largest number of conflicted cell-id decisions in one of its open runs}.
+    strategy_sb: if given, the STRATEGY runs are taken from processes started in that sandbox (e.g. AbortedHistory), while
+    the open runs they are compared with still come from sb"""
     plans = plan(True) + plan(False)
     cfgs = []
     for kind, s, o in plans:
         for c in (s, o):
             if c not in cfgs: cfgs.append(c)
     res = K.run_merge_tasks(sb, [(t, cfgs, 'git') for t in triples], op='merge_full')
+    res_s = K.run_merge_tasks(strategy_sb, [(t, cfgs, 'git') for t in triples], op='merge_full') if strategy_sb is not None else res
     # phase 2: apply the relabelled open decisions with nbdime's applier
     jobs = []; meta = []
     for ti, (t, r) in enumerate(zip(triples, res)):
-        if 'res' not in r:
-            meta.append((ti, None, None, None, r, None, None, 0)); continue
+        if 'res' not in r or 'res' not in res_s[ti]:
+            meta.append((ti, None, None, None, r if 'res' not in r else res_s[ti], None, None, 0)); continue
         by = {json.dumps(c): x for c, x in zip(cfgs, r['res'])}
+        by_s = {json.dumps(c): x for c, x in zip(cfgs, res_s[ti]['res'])}
         for kind, s, o in plans:
-            sres, ores = by[json.dumps(s)], by[json.dumps(o)]
+            sres, ores = by_s[json.dumps(s)], by[json.dumps(o)]
             if 'ok' in sres and 'ok' in ores:
                 T = S.spec_table(*s[:4])
                 rel, n = S.relabel(ores['ok']['decisions'], T)
@@ -176,6 +186,23 @@ def run(tier, seed):
                     continue
                 sig = refine(sig, triples[ti], s, detail)       # root causes sharing a generic signature are kept apart
                 fails.setdefault(sig, []).append((ti, kind, s, o, detail))
+        # ---- the same comparison with the strategy runs made in a process that has seen a merge ABORTED by an exception:
+        # a long-lived process must resolve to side X exactly as a fresh one does (open runs still from fresh processes)
+        sub = [t for t in triples if K.has_text_conflict(t)][: (25 if tier == 'quick' else 250)]
+        hres = evaluate(sb, sub, tier, strategy_sb=AbortedHistory(sb)) if sub else []
+        hfails = {}
+        for (ti, kind, s, o, sig, detail, nrel) in hres:
+            if sig and not (sig.startswith('strategy-run-raises') or sig.startswith('open-run-raises')) and sig != 'runner-failure':
+                hfails.setdefault('after-aborted-merge:' + sig, []).append((ti, kind, s, o, detail))
+        base_sigs = set(fails)
+        for sig, lst in sorted(hfails.items()):
+            if sig[len('after-aborted-merge:'):] in base_sigs or refine(sig[len('after-aborted-merge:'):], sub[lst[0][0]], lst[0][2], lst[0][4]) in base_sigs:
+                continue                    # the same failure shows without the history: reported once, above
+            ti, kind, s, o, detail = min(lst, key=lambda x: len(pyspec.canon([sub[x[0]]['b'], sub[x[0]]['l'], sub[x[0]]['r']])))
+            chk.violation(sig, {'base': sub[ti]['b'], 'local': sub[ti]['l'], 'remote': sub[ti]['r'], 'kind': kind, 'strategy_config': s, 'open_config': o,
+                                'history': 'the strategy run was made after one generic merge under strategy "fail" had raised inside the line-wise string merge in the same process (harness/prelude.py); the open run comes from a fresh process',
+                                'failing_cases_this_run': len(lst)}, detail)
+        hist['after-aborted-merge'] = len(hres)
         for sig, lst in sorted(fails.items()):
             ti, kind, s, o, detail = min(lst, key=lambda x: len(pyspec.canon([triples[x[0]]['b'], triples[x[0]]['l'], triples[x[0]]['r']])))
             small = shrink(sb, triples[ti], kind, s, o, sig, 25 if tier == 'quick' else 80)
